@@ -133,7 +133,7 @@ class Command(BaseCommand):
         interactive = options['interactive']
         write_evolution_name = options['write_evolution_name']
 
-        if app_labels and self.execute:
+        if app_labels and execute:
             raise CommandError(
                 _('Cannot specify an application name when executing '
                   'evolutions.'))
